@@ -217,7 +217,16 @@ def r1(ctx):
             reenc.append(n)
         elif isinstance(n, ast.Call) and isinstance(n.func, ast.Attribute) and ap(n.func.value) in ("self", "cls") \
                 and n.func.attr not in ("template_dict",) and repo.lookup_method(sf.cls, n.func.attr) is not None:
-            reenc.append(n)
+            # a helper that is only handed the output writer and never looks at the blocks / re-codes anything is a
+            # framing helper (header, ack trailer): its writes are judged by the framing analysis below
+            callee = repo.lookup_method(sf.cls, n.func.attr)
+            closure = class_methods_reachable(repo, callee, depth=3)
+            touches = any((isinstance(x, ast.Attribute) and x.attr in ("blocks", "_blocks")) or
+                          (isinstance(x, ast.Call) and call_attr(x) in ("zero_code_compress", "pack"))
+                          for g in closure for x in walk(g.node, into_defs=True))
+            handed_out = any(ap(a) in out_writers for a in list(n.args) + [k.value for k in n.keywords])
+            if touches or not handed_out:
+                reenc.append(n)
     ctx.floor("C02.R1", "re-encode sites in serialize", len(reenc), 1)
     for n in reenc:
         ctx.ob("C02.R1", f"serialize: re-encode site {norm(n)} only without a raw body", raw_fact(n) is False, ctx.w(sf, n),
@@ -229,11 +238,11 @@ def r1(ctx):
     # written to the datagram under some other condition
     hdr_w = 0
     nhdr = ntrail = 0
-    for c in find_calls(sf.node, "write", into_defs=False):
-        recv = ap(c.func.value) if isinstance(c.func, ast.Attribute) else None
-        if not (recv in out_writers and c.args and spec_symbol(c.args[0])):
-            continue
-        conds = _output_conditions(c, sf.node)
+    from .c01 import flat_ops          # writes of serialize in reading order, helpers handed the writer inlined
+    for c, g, chain in flat_ops(repo, sf, "write", set(out_writers)):
+        conds = _output_conditions(c, g.node)
+        for site, caller in chain:
+            conds = conds + _output_conditions(site, caller.node)
         if not conds:
             fmt = struct_fmt_of_prim(repo, spec_symbol(c.args[0]))
             ctx.require(fmt is not None, f"serialize: unknown header spec {src(c.args[0])}")
@@ -242,7 +251,7 @@ def r1(ctx):
             continue
         on_flag = all(pol and (ap(e) or "").endswith(".has_acks") for e, pol in conds)
         ntrail += 1
-        ctx.ob("C02.R1", f"serialize: trailer write {norm(c)} emitted exactly under {m}.has_acks", on_flag, ctx.w(sf, c),
+        ctx.ob("C02.R1", f"serialize: trailer write {norm(c)} emitted exactly under {m}.has_acks", on_flag, ctx.w(g, c),
                f"written under {[norm(e) + ('' if p else ' (negated)') for e, p in conds]}: the header parser strips the "
                f"appended-ack trailer iff the ACK flag is set, so it must be written back iff the flag is set")
     ctx.floor("C02.R1", "serializer header writes", nhdr, 3)
@@ -630,21 +639,54 @@ def r4(ctx):
                    "cannot tell whether this path packs text or bytes")
     ctx.floor("C02.R4", "str-typed returns in the string packer", n_str, 1)
 
-    # ---- reader side
+    # ---- reader side: the returns of _parse_var, followed into helpers that are handed the unpacked value
+    # (`return self._guess_repr(unpacked, tmpl_variable)` -> the helper's returns, under its parameter name)
+    ret_sites, work, seen_fns = [], [(pv, X)], set()
+    while work:
+        fn_, Xn = work.pop()
+        if fn_.full in seen_fns:
+            continue
+        seen_fns.add(fn_.full)
+        for r in [n for n in walk(fn_.node) if isinstance(n, ast.Return)]:
+            v = r.value
+            tgt = None
+            if isinstance(v, ast.Call) and any(ap(a) == Xn for a in list(v.args) + [k.value for k in v.keywords]):
+                if isinstance(v.func, ast.Attribute) and isinstance(v.func.value, ast.Name) and fn_.cls is not None \
+                        and v.func.value.id in ("self", "cls", fn_.cls.name):
+                    tgt = repo.lookup_method(fn_.cls, v.func.attr)
+                elif isinstance(v.func, ast.Name):
+                    cands = [g for g in repo.funcs.get(v.func.id, []) if g.module is fn_.module and g.cls is None and g.parent_fn is None]
+                    tgt = cands[0] if len(cands) == 1 else None
+            if tgt is not None:
+                decos = {(ap(d) or "").split(".")[-1] for d in tgt.node.decorator_list}
+                ps = [a.arg for a in tgt.node.args.args]
+                if tgt.cls is not None and "staticmethod" not in decos:
+                    ps = ps[1:]
+                pname = None
+                for i, a in enumerate(v.args):
+                    if ap(a) == Xn and i < len(ps):
+                        pname = ps[i]
+                for k in v.keywords:
+                    if ap(k.value) == Xn and k.arg in ps:
+                        pname = k.arg
+                if pname is not None:
+                    work.append((tgt, pname))
+                    continue
+            ret_sites.append((fn_, r, Xn))
     n_dec = 0
-    for r in rets:
+    for fn_, r, Xn in ret_sites:
         v = r.value
-        key = f"{pv.qual}: {norm(r)}"
-        where = ctx.w(pv, r)
+        key = f"{fn_.qual}: {norm(r)}"
+        where = ctx.w(fn_, r)
         if v is None:
             ctx.ob("C02.R4", f"{key} returns a value", False, where, "variable decoded to None")
             continue
         decs = [c for c in calls(v) if call_attr(c) == "decode"]
         if not decs:
-            same = isinstance(v, ast.Name) and v.id == X
+            same = isinstance(v, ast.Name) and v.id == Xn
             sub = False
-            if isinstance(v, ast.Call) and len(v.args) == 1 and not v.keywords and ap(v.args[0]) == X:
-                ci = repo.resolve_class(ap(v.func) or "", pv.module)
+            if isinstance(v, ast.Call) and len(v.args) == 1 and not v.keywords and ap(v.args[0]) == Xn:
+                ci = repo.resolve_class(ap(v.func) or "", fn_.module)
                 if ap(v.func) == "bytes":
                     sub = True
                 elif ci is not None:
@@ -660,23 +702,23 @@ def r4(ctx):
         d = decs[0]
         recv = d.func.value if isinstance(d.func, ast.Attribute) else None
         one = False
-        if isinstance(recv, ast.Subscript) and ap(recv.value) == X and isinstance(recv.slice, ast.Slice):
+        if isinstance(recv, ast.Subscript) and ap(recv.value) == Xn and isinstance(recv.slice, ast.Slice):
             s = recv.slice
             up = s.upper
             one = s.lower is None and s.step is None and isinstance(up, ast.UnaryOp) and isinstance(up.op, ast.USub) \
                 and isinstance(up.operand, ast.Constant) and up.operand.value == 1
         elif isinstance(recv, ast.Call) and call_attr(recv) == "removesuffix" and isinstance(recv.func, ast.Attribute) \
-                and ap(recv.func.value) == X and len(recv.args) == 1 and _is_nul(recv.args[0]):
+                and ap(recv.func.value) == Xn and len(recv.args) == 1 and _is_nul(recv.args[0]):
             one = True
         ctx.ob("C02.R4", f"{key} removes exactly one terminator", one, where,
                f"decodes {norm(recv) if recv is not None else '?'}: must be <data>[:-1] or removesuffix(NUL) - "
                f"_pack_string appends exactly one NUL")
         guarded = False
-        for e, pol in facts(r, pv.node):
+        for e, pol in facts(r, fn_.node):
             if pol and isinstance(e, ast.Call) and call_attr(e) == "endswith" and isinstance(e.func, ast.Attribute) \
-                    and ap(e.func.value) == X and len(e.args) == 1 and _is_nul(e.args[0]):
+                    and ap(e.func.value) == Xn and len(e.args) == 1 and _is_nul(e.args[0]):
                 guarded = True
-            if isinstance(e, ast.Compare) and len(e.ops) == 1 and isinstance(e.left, ast.Subscript) and ap(e.left.value) == X \
+            if isinstance(e, ast.Compare) and len(e.ops) == 1 and isinstance(e.left, ast.Subscript) and ap(e.left.value) == Xn \
                     and (isinstance(e.ops[0], ast.Eq) and pol or isinstance(e.ops[0], ast.NotEq) and not pol):
                 sl, rhs = e.left.slice, e.comparators[0]
                 last_slice = isinstance(sl, ast.Slice) and sl.upper is None and sl.step is None and \
@@ -691,7 +733,7 @@ def r4(ctx):
                "decode not dominated by endswith(NUL): an unterminated value would come back with a terminator added "
                "(or lose its last byte)")
         caught = False
-        for tc in try_contexts(r, pv.node):
+        for tc in try_contexts(r, fn_.node):
             if tc.section == "body":
                 for h in tc.node.handlers:
                     if set(handler_names(h)) & CATCHES_DECODE_ERROR and handler_reraises(h) == "never":
@@ -765,6 +807,21 @@ def r5(ctx):
            any(_top_index(rloop, b) < first_read for b in eof_breaks), ctx.w(rf, rloop),
            "no exit on an exhausted reader ahead of the first read of the iteration: datagrams that omit trailing "
            "blocks would not parse")
+    # ... and only there: end-of-data between the repeats of one block must stay a parse failure (the raw body is then
+    # put back and forwarded verbatim) - the writer always emits `len(block list)` repeats behind the count it writes
+    # and insists on the template's number for Multiple blocks, so a short block list cannot be re-encoded as it came
+    for b in [n for n in walk(rloop) if isinstance(n, (ast.Break, ast.Continue, ast.Return)) and _inner_loop_between(rloop, n)]:
+        for e, pol in facts(b, rloop):
+            names = {n.id for n in ast.walk(e) if isinstance(n, ast.Name)}
+            if names and names <= (readers | {"len"}) and names & readers and _eof_polarity(e, pol):
+                ctx.ob("C02.R5", f"{rf.qual}: end-of-data exit `{norm(e)}` inside a block's repeat loop", False, ctx.w(rf, b),
+                       "a datagram that ends between repeats now parses (with fewer repeats than its count byte / the "
+                       "template says) and is re-encoded differently, or not at all, instead of being forwarded verbatim")
+    for wl_ in [n for n in walk(rloop) if isinstance(n, ast.While)]:
+        names = {n.id for n in ast.walk(wl_.test) if isinstance(n, ast.Name)}
+        if names & readers:
+            ctx.ob("C02.R5", f"{rf.qual}: repeats read `while {norm(wl_.test)}`", False, ctx.w(rf, wl_),
+                   "repeat loop bounded by the remaining data rather than by the block's count")
     cbl = [c for c in find_calls(rloop, "create_block_list", into_defs=False)]
     ok_cbl = []
     for c in cbl:
